@@ -366,6 +366,16 @@ def run(ctx, res):
             res.fail("R-RESTART", inst, "R-RESTART|%s|%s" % (f_start.name, field), f_start.loc(),
                      "%s can create the streamer thread without resetting %s: ids continue from the previous run" % (f_start.name, field),
                      {"path_blocks": w})
+    # "stop always unblocks a pending frame call": the HAL must let the stop reach the driver - the camera
+    # wrappers under every driver answer (the simulation of C11): stop / failing set / failing get_frame
+    from .c11 import run_kind
+    model, it, ex, ndev, checked = run_kind(prog, res, "Camera")
+    mine = {k: r for k, r in it.reports.items() if any(t in k or t in r["message"] for t in ("stop", "Running"))}
+    for key, r in sorted(mine.items()):
+        res.fail("HAL-STOP-REACHES", key.split("|", 2)[-1], key, "camera.c", r["message"], r["witness"])
+    res.oblige("HAL-STOP-REACHES", "camera wrappers under every driver answer: a started camera's stop reaches the driver", not mine,
+               "%d abstract states, %d transitions" % (len(ex.states), ex.transitions), prog.func("camera_stop").loc())
+    res.require_min("HAL-STOP-REACHES", 1)
     from .. import platformrules as PR
     PR.run_all(prog, la, res, event=False)   # "stop always returns": thread_join and the lock / cv wrappers
     res.require_min("R-PLATFORM", 13)
